@@ -127,6 +127,30 @@ func (info collVerKeyInfo) IsNotExistOrExpired() bool {
 	return info.Expired || info.MetaData() == nil
 }
 
+// seenArgs remembers the members or fields of one command, so that a member given
+// more than once is handled once: the existence checks of a command read committed
+// data only and do not see what the same command has already put into the batch.
+type seenArgs map[string]struct{}
+
+func newSeenArgs(n int) seenArgs {
+	if n < 2 {
+		return nil
+	}
+	return make(seenArgs, n)
+}
+
+// seenBefore reports whether arg was already given to seenBefore.
+func (s seenArgs) seenBefore(arg []byte) bool {
+	if s == nil {
+		return false
+	}
+	if _, ok := s[string(arg)]; ok {
+		return true
+	}
+	s[string(arg)] = struct{}{}
+	return false
+}
+
 func checkCollKFSize(key []byte, field []byte) error {
 	return common.CheckKeySubKey(key, field)
 }
